@@ -131,6 +131,7 @@ func gen(t *rapid.T) scen.Case {
 	c.ForeignVol = rapid.IntRange(0, 3).Draw(t, "foreign") == 0
 	c.DupVol = rapid.IntRange(0, 3).Draw(t, "dup") == 0
 	c.DirName = rapid.SampledFrom(scen.DirNames).Draw(t, "dirname")
+	c.Index = rapid.SampledFrom(scen.IndexNames).Draw(t, "index")
 	c.SymlinkVols = rapid.IntRange(0, 5).Draw(t, "symlink") == 0
 	if rapid.IntRange(0, 4).Draw(t, "stale") == 0 {
 		c.StaleNRec = rapid.IntRange(1, 9).Draw(t, "stalenrec")
